@@ -222,8 +222,10 @@ def finish(prop, tier, seed, results, t0, extra_cov=None, level="proof", checker
     evid = {"property_id": prop, "tier": tier, "seed": int(seed), "level": level, "coverage": cov,
             "assumptions": [ASSUMPTION_TEXT.get(a, a) for a in sorted(assumptions)],
             "wall_s": round(wall, 2), "violations": nviol}
-    os.makedirs(H.EVID, exist_ok=True)
-    with open(os.path.join(H.EVID, prop + ".json"), "w") as f:
+    # a partial run (--only) never overwrites the evidence of the full check
+    evdir = H.EVID if not partial else os.path.join(H.OUT, "evidence_partial")
+    os.makedirs(evdir, exist_ok=True)
+    with open(os.path.join(evdir, prop + ".json"), "w") as f:
         json.dump(evid, f, indent=1, default=str)
 
     for l in lines:
